@@ -46,7 +46,8 @@ def strategy(draw):
     return dict(files=files, nproc=draw(gen.choice([1, 2, 1, 3, 1, 5, 2, 1])), method=method,
                 fft=draw(gen.choice([None, "record-length", 32768, None])), filter=draw(gen.choice([[0.8, 15.0], [None, None], [None, None], [0.8, 15.0]])),
                 detrend=draw(st.sampled_from(["linear", "constant"])), dist_mc=draw(st.sampled_from(["lognormal", "normal"])),
-                dist_fn=draw(st.sampled_from(["lognormal", "normal"])), width=draw(st.sampled_from([0.1, 0.2])))
+                dist_fn=draw(st.sampled_from(["lognormal", "normal"])), width=draw(st.sampled_from([0.1, 0.2])),
+                pre_kind=draw(gen.choice(["hvsr", "psd-differentiate", "hvsr", "hvsr"])))
 
 
 def _write_mseed(path, spec):
@@ -61,7 +62,12 @@ def _write_mseed(path, spec):
 
 
 def _settings_files(hv, case, tmp):
-    pre = hv.HvsrPreProcessingSettings(window_length_in_seconds=70.0, filter_corner_frequencies_in_hz=list(case["filter"]), detrend=case["detrend"])
+    if case.get("pre_kind", "hvsr") == "psd-differentiate":
+        # the other public preprocessing settings class (velocity -> acceleration before the HVSR processing)
+        pre = hv.PsdPreProcessingSettings(window_length_in_seconds=70.0, filter_corner_frequencies_in_hz=list(case["filter"]), detrend=case["detrend"],
+                                          differentiate=True)
+    else:
+        pre = hv.HvsrPreProcessingSettings(window_length_in_seconds=70.0, filter_corner_frequencies_in_hz=list(case["filter"]), detrend=case["detrend"])
     fcs = np.geomspace(0.3, 20.0, 30)
     spec = dict(method=case["method"], op="konno_and_ohmachi", bw=40.0, fcs=fcs.tolist(), width=case["width"], fft_n=case["fft"],
                 policy="keeping_majority_time_step" if case["method"] == "diffuse_field" else "frequency_domain_resampling",
@@ -84,7 +90,7 @@ def _env():
 def check_case(case):
     import hvsrpy as hv
     tmp = tempfile.mkdtemp(prefix="vf-c19-")
-    labels = [case["method"], f"nproc={case['nproc']}", f"fft={case['fft']}"]
+    labels = [case["method"], f"nproc={case['nproc']}", f"fft={case['fft']}", f"pre={case.get('pre_kind', 'hvsr')}"]
     try:
         data_dir, run_dir, ref_dir = (os.path.join(tmp, d) for d in ("data", "run", "ref"))
         for d in (data_dir, run_dir, ref_dir):
